@@ -6,6 +6,7 @@ import (
 	"fmt"
 	"io"
 	"strings"
+	"unicode/utf8"
 
 	"mellium.im/xmpp/verifharness/internal/xt"
 )
@@ -33,6 +34,18 @@ func ParseStream(b []byte, haveOpen bool, defaultNS string) (items []Item, rest 
 	prefix := ""
 	if !haveOpen {
 		prefix = `<stream:stream xmlns='` + defaultNS + `' xmlns:stream='` + StreamNS + `'>`
+	}
+	// output captured in the middle of a multi-byte character is incomplete,
+	// not malformed
+	for cut := 1; cut <= 3 && cut <= len(b); cut++ {
+		if c := b[len(b)-cut]; c >= 0xC0 {
+			if !utf8.FullRune(b[len(b)-cut:]) {
+				b = b[:len(b)-cut]
+			}
+			break
+		} else if c < 0x80 {
+			break
+		}
 	}
 	full := append([]byte(prefix), b...)
 	d := xml.NewDecoder(bytes.NewReader(full))
